@@ -33,6 +33,12 @@ package arbitrator
 //     deleted gracefully (deletionTimestamp set, containers still serving) and a finished pod
 //     (Succeeded/Failed, e.g. of a Job, or a pod whose kubelet no longer reports) whose Ready
 //     condition was left True. Per the statement such a pod is unavailable ("NotRunning/NotReady").
+//   * Read lag (35% of the cases): as in production, the arbitrator's client writes to the API
+//     server but reads (Get/List) from an informer cache. The cache is a second fake client that is
+//     rebuilt from the server's objects only at harness-chosen points: always before a round (after
+//     the environment delivered its events: nothing foreign is hidden from the arbitrator) and,
+//     inside a round, never or after a random number of the arbitrator's own successful writes.
+//     The oracle always reads the server.
 //   * Workloads are ReplicaSet / StatefulSet / Job kinds owning their pods directly (no Deployment
 //     indirection); the fake controller finder answers GetPodsForRef with the API pods owned by the
 //     workload UID in the namespace and the workload's expected replicas of the moment.
@@ -320,6 +326,84 @@ type c16aWorld struct {
 	held     map[types.UID]int
 	podCache []corev1.Pod // what the finder serves; refreshed from the API after any pod write
 	podDirty bool
+
+	// read lag: the arbitrator reads from cache, writes to cl
+	lag             bool
+	cache           client.Client
+	refreshAfter    int // inside the current round: rebuild the cache after that many own writes; 0 = never
+	ownWrites       int // successful writes of the arbitrator in the current round
+	staleOwnWrites  int // ... of which the cache has not seen yet
+	staleAdmissions int // passed-annotation updates of this round the cache has not seen yet
+}
+
+// c16aLagClient is what the arbitrator gets in read-lag mode: everything goes to the server client
+// except Get and List, which are served from the world's current cache client.
+type c16aLagClient struct {
+	client.Client
+	w *c16aWorld
+}
+
+func (l *c16aLagClient) Get(ctx context.Context, key client.ObjectKey, obj client.Object, opts ...client.GetOption) error {
+	return l.w.cache.Get(ctx, key, obj, opts...)
+}
+
+func (l *c16aLagClient) List(ctx context.Context, list client.ObjectList, opts ...client.ListOption) error {
+	return l.w.cache.List(ctx, list, opts...)
+}
+
+// refreshCache: the informer has caught up with the server.
+func (w *c16aWorld) refreshCache() {
+	if !w.lag {
+		return
+	}
+	var objs []client.Object
+	pl := &corev1.PodList{}
+	w.must(w.cl.List(context.TODO(), pl), "list pods")
+	for i := range pl.Items {
+		objs = append(objs, &pl.Items[i])
+	}
+	jl := &sev1alpha1.PodMigrationJobList{}
+	w.must(w.cl.List(context.TODO(), jl), "list jobs")
+	for i := range jl.Items {
+		objs = append(objs, &jl.Items[i])
+	}
+	w.cache = c16aFakeBuilder().WithObjects(objs...).Build()
+	cp, cj := &corev1.PodList{}, &sev1alpha1.PodMigrationJobList{}
+	w.must(w.cache.List(context.TODO(), cp), "list cached pods")
+	w.must(w.cache.List(context.TODO(), cj), "list cached jobs")
+	if len(cp.Items) != len(pl.Items) || len(cj.Items) != len(jl.Items) {
+		w.c.Harness("cache rebuild lost objects: pods %d/%d jobs %d/%d", len(cp.Items), len(pl.Items), len(cj.Items), len(jl.Items))
+	}
+	for i := range cj.Items {
+		for k := range jl.Items {
+			if jl.Items[k].Name == cj.Items[i].Name && (jl.Items[k].Status.Phase != cj.Items[i].Status.Phase ||
+				jl.Items[k].Annotations[AnnotationPassedArbitration] != cj.Items[i].Annotations[AnnotationPassedArbitration] ||
+				jl.Items[k].ResourceVersion != cj.Items[i].ResourceVersion) {
+				w.c.Harness("cache rebuild changed job %s", cj.Items[i].Name)
+			}
+		}
+	}
+	w.staleOwnWrites, w.staleAdmissions = 0, 0
+}
+
+// ownWrite is called after every successful PodMigrationJob write issued while a round runs.
+func (w *c16aWorld) ownWrite(admission bool) {
+	if !w.lag {
+		return
+	}
+	w.ownWrites++
+	w.staleOwnWrites++
+	if admission {
+		if w.staleAdmissions > 0 {
+			// this admission was decided while an earlier admission of the same round was not in the cache
+			w.c.Count("admissions_decided_with_own_admission_invisible", 1)
+		}
+		w.staleAdmissions++
+	}
+	if w.refreshAfter > 0 && w.ownWrites == w.refreshAfter {
+		w.c.Op("  [cache] informer catches up after %d own writes", w.ownWrites)
+		w.refreshCache()
+	}
 }
 
 var c16aBase = time.Date(2024, 1, 1, 0, 0, 0, 0, time.UTC)
@@ -400,9 +484,9 @@ func c16aIsJob(obj client.Object) bool {
 	return ok
 }
 
-func c16aNewWorld(c *kit.Case, cfg *c16aCfg) *c16aWorld {
-	w := &c16aWorld{c: c, r: c.R, cfg: cfg, wlByUID: map[types.UID]*c16aWorkload{}, held: map[types.UID]int{}}
-	w.failRand = c.R.Fork()
+// c16aFakeBuilder: controller-runtime fake client with the PodMigrationJob status subresource and
+// the field indexes of pkg/descheduler/fieldindex/register.go (same extractors).
+func c16aFakeBuilder() *fake.ClientBuilder {
 	jobIdx := func(f func(j *sev1alpha1.PodMigrationJob) string) client.IndexerFunc {
 		return func(obj client.Object) []string {
 			j, ok := obj.(*sev1alpha1.PodMigrationJob)
@@ -412,15 +496,7 @@ func c16aNewWorld(c *kit.Case, cfg *c16aCfg) *c16aWorld {
 			return []string{f(j)}
 		}
 	}
-	fail := func(obj client.Object, verb string) error {
-		if w.inRound && w.failPct > 0 && c16aIsJob(obj) && w.failRand.Pct(w.failPct) {
-			w.injected++
-			c.Op("  [api] %s of job %s fails (injected server timeout)", verb, obj.GetName())
-			return apierrors.NewServerTimeout(sev1alpha1.Resource("podmigrationjobs"), verb, 1)
-		}
-		return nil
-	}
-	w.cl = fake.NewClientBuilder().WithScheme(c16aScheme).
+	return fake.NewClientBuilder().WithScheme(c16aScheme).
 		WithStatusSubresource(&sev1alpha1.PodMigrationJob{}).
 		// same extractors as pkg/descheduler/fieldindex/register.go
 		WithIndex(&corev1.Pod{}, fieldindex.IndexPodByNodeName, func(obj client.Object) []string {
@@ -441,7 +517,21 @@ func c16aNewWorld(c *kit.Case, cfg *c16aCfg) *c16aWorld {
 		WithIndex(&sev1alpha1.PodMigrationJob{}, fieldindex.IndexJobPodNamespacedName, jobIdx(func(j *sev1alpha1.PodMigrationJob) string {
 			return fmt.Sprintf("%s/%s", j.Spec.PodRef.Namespace, j.Spec.PodRef.Name)
 		})).
-		WithIndex(&sev1alpha1.PodMigrationJob{}, fieldindex.IndexJobByPodNamespace, jobIdx(func(j *sev1alpha1.PodMigrationJob) string { return j.Spec.PodRef.Namespace })).
+		WithIndex(&sev1alpha1.PodMigrationJob{}, fieldindex.IndexJobByPodNamespace, jobIdx(func(j *sev1alpha1.PodMigrationJob) string { return j.Spec.PodRef.Namespace }))
+}
+
+func c16aNewWorld(c *kit.Case, cfg *c16aCfg, lag bool) *c16aWorld {
+	w := &c16aWorld{c: c, r: c.R, cfg: cfg, lag: lag, wlByUID: map[types.UID]*c16aWorkload{}, held: map[types.UID]int{}}
+	w.failRand = c.R.Fork()
+	fail := func(obj client.Object, verb string) error {
+		if w.inRound && w.failPct > 0 && c16aIsJob(obj) && w.failRand.Pct(w.failPct) {
+			w.injected++
+			c.Op("  [api] %s of job %s fails (injected server timeout)", verb, obj.GetName())
+			return apierrors.NewServerTimeout(sev1alpha1.Resource("podmigrationjobs"), verb, 1)
+		}
+		return nil
+	}
+	w.cl = c16aFakeBuilder().
 		WithInterceptorFuncs(interceptor.Funcs{
 			Create: func(ctx context.Context, cl client.WithWatch, obj client.Object, opts ...client.CreateOption) error {
 				w.podDirty = w.podDirty || !c16aIsJob(obj)
@@ -456,19 +546,32 @@ func c16aNewWorld(c *kit.Case, cfg *c16aCfg) *c16aWorld {
 					return err
 				}
 				w.podDirty = w.podDirty || !c16aIsJob(obj)
-				return cl.Update(ctx, obj, opts...)
+				err := cl.Update(ctx, obj, opts...)
+				if err == nil && w.inRound && c16aIsJob(obj) {
+					w.ownWrite(obj.GetAnnotations()[AnnotationPassedArbitration] == "true")
+				}
+				return err
 			},
 			SubResourceUpdate: func(ctx context.Context, cl client.Client, sub string, obj client.Object, opts ...client.SubResourceUpdateOption) error {
 				if err := fail(obj, "status-update"); err != nil {
 					return err
 				}
-				return cl.SubResource(sub).Update(ctx, obj, opts...)
+				err := cl.SubResource(sub).Update(ctx, obj, opts...)
+				if err == nil && w.inRound && c16aIsJob(obj) {
+					w.ownWrite(false)
+				}
+				return err
 			},
 		}).
 		Build()
 
+	var acl client.Client = w.cl
+	if lag {
+		acl = &c16aLagClient{Client: w.cl, w: w}
+		w.refreshCache()
+	}
 	f := &filter{
-		client:                     w.cl,
+		client:                     acl,
 		args:                       cfg.args,
 		controllerFinder:           &c16aFinder{w: w},
 		arbitratedPodMigrationJobs: map[types.UID]bool{},
@@ -484,13 +587,13 @@ func c16aNewWorld(c *kit.Case, cfg *c16aCfg) *c16aWorld {
 			SortJobsByCreationTime(),
 			SortJobsByPod(sorter.PodSorter().Sort),
 			SortJobsByController(),
-			SortJobsByMigratingNum(w.cl),
+			SortJobsByMigratingNum(acl),
 		},
 		filter:        f,
-		client:        w.cl,
+		client:        acl,
 		eventRecorder: &events.FakeRecorder{},
 	}
-	w.h = NewHandler(w.a, w.cl)
+	w.h = NewHandler(w.a, acl)
 	return w
 }
 
@@ -925,8 +1028,15 @@ func (w *c16aWorld) checkRound(round int, before, after *c16aSnap, waitingBefore
 	}
 
 	// (1) budgets: |P_after| <= max(limit, |P_before|) per dimension
+	lagRound := w.lag
 	dim := func(name, key string, limit, b, a int) (atLimit bool) {
 		c.Count("budget_checks", 1)
+		if lagRound {
+			c.Count("budget_checks_under_read_lag", 1)
+			if a > b {
+				c.Count("budget_checks_grown_under_read_lag", 1)
+			}
+		}
 		if limit > 0 && b > limit {
 			st.preExceeded = append(st.preExceeded, name)
 			c.Count("pre_exceeded_"+name, 1)
@@ -950,6 +1060,9 @@ func (w *c16aWorld) checkRound(round int, before, after *c16aSnap, waitingBefore
 		if a == limit {
 			st.boundary = append(st.boundary, name)
 			c.Count("boundary_hits_"+name, 1)
+			if lagRound {
+				c.Count("boundary_hits_under_read_lag", 1)
+			}
 			return true
 		}
 		return false
@@ -1394,7 +1507,8 @@ func (w *c16aWorld) addWaitingJobs(n int) {
 		}
 		var j *sev1alpha1.PodMigrationJob
 		switch r.Weighted(30, 25, 25, 20) {
-		case 0: // descheduler's Evict: Filter first
+		case 0: // descheduler's Evict: Filter first (the informer has seen everything created so far)
+			w.refreshCache()
 			ok := w.a.Filter(p.DeepCopy())
 			c.Op("descheduler asks Filter(%s) -> %v", c16aPodStr(p), ok)
 			if !ok {
@@ -1690,17 +1804,21 @@ func TestVerifC16ArbitrationRounds(t *testing.T) {
 		t.Fatalf("fixtures: %v", err)
 	}
 	kit.Run(t, kit.Config{Property: "C16", Unit: "rounds", Quick: 960, Thorough: 24000,
-		Rule: "generated cluster (2-4 nodes with skewed pod placement, 1-3 namespaces, 1-4 workloads of 1-12 replicas with per-pod readiness/phase incl. terminating or finished pods whose Ready condition is still True (placed so that workloads sit one below / at their allowed unavailability), bare pods), start-up snapshot of Running/Succeeded/Failed/Aborted jobs (restart flavour: all re-delivered as Create events; warm flavour: not), 2-12 waiting jobs created by descheduler(with/without Filter)/user(with/without uid), limits global/node/namespace unset|0|1-6, per-workload migrating/unavailable unset|int|percent, eviction gates, injected API write failures; 2-5 real doOnceArbitrate() rounds with reconciler/user/workload activity in between; oracle on the API objects after every round; distinct = (which limits are on, workload limit kinds, flavour, admitted/held-for-headroom/failed classes of the round, set of dimensions that reached their limit in the round, some dimension exceeded before); non-trivial = a case with a round that both admitted a job and held back another live job (existing pod) because some budget had no room"},
+		Rule: "generated cluster (2-4 nodes with skewed pod placement, 1-3 namespaces, 1-4 workloads of 1-12 replicas with per-pod readiness/phase incl. terminating or finished pods whose Ready condition is still True (placed so that workloads sit one below / at their allowed unavailability), bare pods), start-up snapshot of Running/Succeeded/Failed/Aborted jobs (restart flavour: all re-delivered as Create events; warm flavour: not), 2-12 waiting jobs created by descheduler(with/without Filter)/user(with/without uid), limits global/node/namespace unset|0|1-6, per-workload migrating/unavailable unset|int|percent, eviction gates, injected API write failures, read lag in 35% of the cases (arbitrator reads from an informer-cache copy that does not see its own writes of the round, or only after 1-3 of them; foreign writes are always visible at round start); 2-5 real doOnceArbitrate() rounds with reconciler/user/workload activity in between; oracle on the API objects after every round; distinct = (which limits are on, workload limit kinds, flavour, admitted/held-for-headroom/failed classes of the round, set of dimensions that reached their limit in the round, some dimension exceeded before); non-trivial = a case with a round that both admitted a job and held back another live job (existing pod) because some budget had no room"},
 		func(c *kit.Case) {
 			r := c.R
 			cfg := c16aGenCfg(r)
-			w := c16aNewWorld(c, cfg)
+			lag := r.Pct(35)
+			w := c16aNewWorld(c, cfg, lag)
+			if lag {
+				c.Count("cases_with_read_lag", 1)
+			}
 			w.dupMode = r.Pct(8)
 			if r.Pct(25) {
 				w.failPct = kit.Pick(r, []int{5, 15, 40})
 			}
 			restart := r.Pct(55)
-			c.Op("config: %s; duplicates=%v apiFailPct=%d flavour-restart=%v", cfg.desc, w.dupMode, w.failPct, restart)
+			c.Op("config: %s; duplicates=%v apiFailPct=%d flavour-restart=%v read-lag=%v", cfg.desc, w.dupMode, w.failPct, restart, lag)
 			w.genCluster()
 			w.genSnapshotJobs(restart)
 			rounds := r.Range(2, 5)
@@ -1717,9 +1835,26 @@ func TestVerifC16ArbitrationRounds(t *testing.T) {
 					}
 				}
 				c.Op("round %d: waiting = %s", round, strings.Join(wn, " "))
+				if lag {
+					// foreign writes are all visible at the start of the round; own writes of the round are not
+					w.refreshCache()
+					w.ownWrites, w.refreshAfter = 0, 0
+					if r.Pct(40) {
+						w.refreshAfter = r.Range(1, 3)
+					}
+					c.Op("round %d: read lag, own writes visible after %d writes (0 = not within the round)", round, w.refreshAfter)
+				}
 				w.inRound = true
 				w.a.doOnceArbitrate()
 				w.inRound = false
+				if lag {
+					c.Count("rounds_under_read_lag", 1)
+					if w.staleOwnWrites > 0 {
+						c.Count("rounds_with_own_writes_invisible", 1)
+						c.Count("own_writes_invisible_at_round_end", w.staleOwnWrites)
+					}
+					w.refreshCache() // informer catches up before anybody asks Filter
+				}
 				after := w.snapshot()
 				var res []string
 				for _, u := range waiting {
@@ -1743,7 +1878,7 @@ func TestVerifC16ArbitrationRounds(t *testing.T) {
 				}
 				sort.Strings(st.boundary)
 				sort.Strings(st.preExceeded)
-				c.Seen(cfg.global > 0, cfg.perNode > 0, cfg.perNS > 0, c16aKind(cfg.args.MaxMigratingPerWorkload), c16aKind(cfg.args.MaxUnavailablePerWorkload), restart,
+				c.Seen(cfg.global > 0, cfg.perNode > 0, cfg.perNS > 0, c16aKind(cfg.args.MaxMigratingPerWorkload), c16aKind(cfg.args.MaxUnavailablePerWorkload), restart, lag,
 					c16aClass(st.admitted), c16aClass(st.heldNoRoom), st.failed > 0, strings.Join(c16aUniq(st.boundary), ","), len(st.preExceeded) > 0)
 				w.checkFilter(round, after)
 				if round < rounds {
